@@ -41,6 +41,8 @@ pub struct HxCfg {
     pub next_id: bool,
     pub add_next: bool,
     pub clone_swap: bool,
+    /// `used.clone_from(&g); g = used` as a transition
+    pub clone_from_swap: bool,
     pub reload_swap: bool,
     pub merges: Vec<u8>,
     /// fixed trees merged together with a stray vertex: the call must fail (Op::MergeFail)
@@ -68,6 +70,7 @@ impl HxCfg {
             next_id: true,
             add_next: true,
             clone_swap: false,
+            clone_from_swap: false,
             reload_swap: false,
             merges: vec![],
             merge_fails: vec![],
@@ -111,6 +114,9 @@ impl HxCfg {
         if self.clone_swap {
             ops.push(Op::CloneSwap);
         }
+        if self.clone_from_swap {
+            ops.push(Op::CloneFromSwap);
+        }
         if self.reload_swap {
             ops.push(Op::ReloadSwap);
         }
@@ -139,7 +145,7 @@ impl HxCfg {
             "add bind put data",
             if self.next_id { " next_id" } else { "" },
             if self.add_next { " add(next_id)" } else { "" },
-            if self.clone_swap { " clone-swap" } else { "" },
+            if self.clone_swap && self.clone_from_swap { " clone-swap clone_from-swap" } else if self.clone_swap { " clone-swap" } else if self.clone_from_swap { " clone_from-swap" } else { "" },
             if self.reload_swap { " reload-swap" } else { "" },
             if self.max_depth == usize::MAX { "to closure".to_string() } else { format!("depth {}", self.max_depth) },
             self.probe_names().join(" ")
@@ -768,6 +774,26 @@ pub fn adopt_real_state<const N: usize>(g: &Sodg<N>, m: &mut Model) -> Result<()
 /// One step of implementation and model together, without judging it (used
 /// to re-materialise a state whose transitions were judged when discovered).
 pub fn step_nocheck<const N: usize>(g: &mut Sodg<N>, m: &mut Model, op: &Op) -> Result<(), String> {
+    let r = step_nocheck_inner(g, m, op);
+    // the same read-only questions that were asked when this step was judged: a state is reached
+    // through a history in which every call was followed by them (answers cached inside `&self`
+    // methods are part of what the next call meets)
+    observe(g, m);
+    r
+}
+
+/// keys/len/is_empty, kids of every present vertex, kid for every label the model knows there
+pub fn observe<const N: usize>(g: &Sodg<N>, m: &Model) {
+    let _ = guarded(|| (g.keys().len(), g.len(), g.is_empty()));
+    for (v, mv) in &m.present {
+        let _ = guarded(|| kids_of(g, *v).len());
+        for (l, _) in &mv.edges {
+            let _ = guarded(|| g.kid(*v, lab(*l)));
+        }
+    }
+}
+
+fn step_nocheck_inner<const N: usize>(g: &mut Sodg<N>, m: &mut Model, op: &Op) -> Result<(), String> {
     let res = apply_real(g, op)?;
     let mut errs = vec![];
     match (op, &res) {
@@ -1288,6 +1314,10 @@ fn expand_state<const N: usize>(
         let h = history_of(hist_ctx.0, hist_ctx.1, hist_ctx.2, idx);
         crate::report::hx_case_json(cfg, &h, "probe", "crash-or-hang", "the engine did not survive this state: a probe or a transition from it crashed the process or did not return", None)
     });
+    // every 8th state is probed and expanded right after failing calls on unrelated objects
+    if crate::dirty::maybe(idx as usize, 8) {
+        bump(&mut out.counters, "states_expanded_right_after_failing_calls_on_unrelated_objects");
+    }
     // probes on the state itself
     {
         let hist = || history_of(hist_ctx.0, hist_ctx.1, hist_ctx.2, idx);
